@@ -225,6 +225,8 @@ type Ctx struct {
 	ntKey     string
 	isNT      bool
 	note      string
+	ntKeys    []string // additional non-trivial items inside one (batched) case
+	extraEval int
 }
 
 // Discard marks the case as not evaluated (precondition not met).
@@ -240,6 +242,12 @@ func (x *Ctx) Excluded(kf string) { x.excluded = append(x.excluded, kf) }
 // Nontrivial marks the case as non-trivial by the property's stated rule.
 // key identifies the case for distinct counting; "" means hash the case JSON.
 func (x *Ctx) Nontrivial(key string) { x.isNT = true; x.ntKey = key }
+
+// NontrivialItem records one more distinct non-trivial item of a batched case.
+func (x *Ctx) NontrivialItem(key string) { x.ntKeys = append(x.ntKeys, key) }
+
+// AddEvaluations counts n additional evaluations (items of a batched case beyond the first).
+func (x *Ctx) AddEvaluations(n int) { x.extraEval += n }
 
 // Replaying is true when the case comes from a replay file.
 func (x *Ctx) Replaying() bool { return x.replaying }
@@ -260,7 +268,10 @@ func (st *SubStats) commit(x *Ctx, caseJSON func() []byte) {
 		st.Discards[x.discarded]++
 		return
 	}
-	st.Evaluations++
+	st.Evaluations += 1 + x.extraEval
+	for _, k := range x.ntKeys {
+		st.nt[hash64([]byte(k))] = struct{}{}
+	}
 	for _, c := range x.classes {
 		st.Classes[c]++
 	}
